@@ -1,7 +1,9 @@
 package props
 
 import (
+	"bytes"
 	"fmt"
+	"io"
 	"reflect"
 	"sort"
 	"strconv"
@@ -17,6 +19,9 @@ import (
 type c15Case struct {
 	D    DumpM
 	Race *RaceM `json:",omitempty"`
+	// Tail: 0 none; 1 the dump is followed by a goroutine with a malformed frame (the snapshot
+	// is returned together with a parse error); 2 the reader fails after the dump.
+	Tail int
 }
 
 type argOcc struct {
@@ -137,7 +142,23 @@ func (c *c15Case) input() []byte {
 	if c.Race != nil {
 		return c.Race.Print()
 	}
+	if c.Tail == 1 {
+		return append(c.D.Print(), "\ngoroutine 999999 [running]:\nmain.broken(0xzz)\n\t/a/z.go:1 +0x1\n"...)
+	}
 	return c.D.Print()
+}
+
+type failAfter struct {
+	r    io.Reader
+	done bool
+}
+
+func (f *failAfter) Read(p []byte) (int, error) {
+	n, err := f.r.Read(p)
+	if err == io.EOF {
+		return n, errInjected
+	}
+	return n, err
 }
 
 func c15Scan(c *c15Case, naming bool) (*stack.Snapshot, error) {
@@ -148,7 +169,22 @@ func c15Scan(c *c15Case, naming bool) (*stack.Snapshot, error) {
 		}
 		return snap, nil
 	}
-	return parseDump(&c.D, &stack.Opts{NameArguments: naming})
+	if c.Tail == 0 {
+		return parseDump(&c.D, &stack.Opts{NameArguments: naming})
+	}
+	var in io.Reader = bytes.NewReader(c.input())
+	if c.Tail == 2 {
+		in = &failAfter{r: in}
+	}
+	snap, _, err := stack.ScanSnapshot(in, io.Discard, &stack.Opts{NameArguments: naming})
+	if snap == nil || err == nil || err == io.EOF {
+		return nil, fmt.Errorf("HARNESS: expected a snapshot together with an error, got snapshot=%v err=%v", snap != nil, err)
+	}
+	if c.Tail == 1 {
+		// the malformed goroutine itself is partial; what precedes it is what matters
+		snap.Goroutines = snap.Goroutines[:len(snap.Goroutines)-1]
+	}
+	return snap, nil
 }
 
 func c15Oracle(c c15Case) error {
@@ -259,7 +295,11 @@ var c15 = Check[c15Case]{
 		case 1, 2:
 			return c15Case{D: genAggDump(t, 12)}
 		}
-		return c15Case{D: genPointerDump(t)}
+		c := c15Case{D: genPointerDump(t)}
+		if oneIn(t, 4, "errorTail") {
+			c.Tail = rapid.IntRange(1, 2).Draw(t, "tail")
+		}
+		return c
 	},
 	Oracle: c15Oracle,
 	Obs: func(c c15Case) Obs {
@@ -285,7 +325,10 @@ var c15 = Check[c15Case]{
 		if c.Race != nil {
 			cl = append(cl, "race")
 		}
-		return Obs{Nontrivial: nt, Digest: digestBytes(c.input()), Classes: cl, Sample: quoteShort(truncBytes(c.input(), 900))}
+		if c.Tail != 0 {
+			cl = append(cl, "snapshot_returned_with_error")
+		}
+		return Obs{Nontrivial: nt, Digest: digestBytes(c.input(), []byte{byte(c.Tail)}), Classes: cl, Sample: quoteShort(truncBytes(c.input(), 900))}
 	},
 }
 
